@@ -17,12 +17,13 @@ void Crystal_F_H_StructureFactor_Partial2(Crystal_Struct *crystal, double energy
 #define D(k) (cols[k].d[j])
 #define S(k) (str_of(cols[k].i[j]))
 
+static unsigned long long hx(double d) { unsigned long long u; memcpy(&u, &d, 8); return u; }
 static void ser_ints(const int *a, int n) { for (int i = 0; i < n; i++) blob_printf("%s%d", i ? "," : "", a[i]); }
-static void ser_dbls(const double *a, int n) { for (int i = 0; i < n; i++) blob_printf("%s%a", i ? "," : "", a[i]); }
+static void ser_dbls(const double *a, int n) { for (int i = 0; i < n; i++) blob_printf("%s%016llx", i ? "," : "", hx(a[i])); }
 
 static void ser_cd(uint32_t j, struct compoundData *cd) {
     int off = trk_on; trk_on = 0;
-    blob_printf("%u\t%d\t%a\t%a\t", j, cd->nElements, cd->nAtomsAll, cd->molarMass);
+    blob_printf("%u\t%d\t%016llx\t%016llx\t", j, cd->nElements, hx(cd->nAtomsAll), hx(cd->molarMass));
     ser_ints(cd->Elements, cd->nElements); blob_printf("\t");
     ser_dbls(cd->nAtoms, cd->nElements); blob_printf("\t");
     ser_dbls(cd->massFractions, cd->nElements); blob_printf("\n");
@@ -54,7 +55,7 @@ static void op_add_compound_data(uint32_t j, rec_t *r, xrl_error **e) {
 
 static void ser_nist(uint32_t j, struct compoundDataNIST *c) {
     int off = trk_on; trk_on = 0;
-    blob_printf("%u\t%s\t%d\t%a\t", j, c->name, c->nElements, c->density);
+    blob_printf("%u\t%s\t%d\t%016llx\t", j, c->name, c->nElements, hx(c->density));
     ser_ints(c->Elements, c->nElements); blob_printf("\t"); ser_dbls(c->massFractions, c->nElements); blob_printf("\n");
     trk_on = off;
 }
@@ -112,7 +113,7 @@ static void op_Atomic_Factors(uint32_t j, rec_t *r, xrl_error **e) {
     double f0 = -7, fp = -7, fpp = -7;
     int rv = Atomic_Factors(I(0), D(1), D(2), D(3), I(4) & 1 ? &f0 : NULL, I(4) & 2 ? &fp : NULL, I(4) & 4 ? &fpp : NULL, e);
     r->v[0] = rv;
-    int off = trk_on; trk_on = 0; blob_printf("%u\t%a\t%a\t%a\n", j, f0, fp, fpp); trk_on = off;
+    int off = trk_on; trk_on = 0; blob_printf("%u\t%016llx\t%016llx\t%016llx\n", j, hx(f0), hx(fp), hx(fpp)); trk_on = off;
 }
 static void op_Refractive_Index2(uint32_t j, rec_t *r, xrl_error **e) {
     xrlComplex z = { -7, -7 }; Refractive_Index2(S(0), D(1), D(2), &z, e); r->v[0] = z.re; r->v[1] = z.im;
@@ -128,9 +129,9 @@ static void op_SFP2(uint32_t j, rec_t *r, xrl_error **e) {
 }
 static void ser_crystal(uint32_t j, Crystal_Struct *c) {
     int off = trk_on; trk_on = 0;
-    blob_printf("%u\t%s\t%a\t%a\t%a\t%a\t%a\t%a\t%a\t%d", j, c->name ? c->name : "(null)", c->a, c->b, c->c, c->alpha, c->beta, c->gamma, c->volume, c->n_atom);
+    blob_printf("%u\t%s\t%016llx\t%016llx\t%016llx\t%016llx\t%016llx\t%016llx\t%016llx\t%d", j, c->name ? c->name : "(null)", hx(c->a), hx(c->b), hx(c->c), hx(c->alpha), hx(c->beta), hx(c->gamma), hx(c->volume), c->n_atom);
     for (int i = 0; i < c->n_atom; i++)
-        blob_printf("\t%d,%a,%a,%a,%a", c->atom[i].Zatom, c->atom[i].fraction, c->atom[i].x, c->atom[i].y, c->atom[i].z);
+        blob_printf("\t%d,%016llx,%016llx,%016llx,%016llx", c->atom[i].Zatom, hx(c->atom[i].fraction), hx(c->atom[i].x), hx(c->atom[i].y), hx(c->atom[i].z));
     blob_printf("\n");
     trk_on = off;
 }
